@@ -4,6 +4,7 @@ the rounding-style dispatch (`Gen/C17RT.lean`) and the component loops of the ve
 -/
 import DuneVerif.Gen.C17RT
 import DuneVerif.Gen.C17Vec
+import DuneVerif.Gen.C17EqVec
 
 namespace DV.C17
 set_option linter.unusedSectionVars false
@@ -79,6 +80,46 @@ theorem dispatch_targets_base :
     ∀ d ∈ [GenRT.round_towardZero, GenRT.round_towardInf, GenRT.trunc_towardZero, GenRT.trunc_towardInf],
       (d.thenStyle = .downward ∨ d.thenStyle = .upward) ∧ (d.elseStyle = .downward ∨ d.elseStyle = .upward) := by
   decide
+end
+
+/-! ### the component loops of the vector comparisons (`Gen/C17EqVec.lean`) -/
+
+theorem allLoopAux_shift (F : Nat → Bool) : ∀ n k, allLoopAux F (k + 1) n = allLoopAux (fun i => F (i + 1)) k n := by
+  intro n
+  induction n with
+  | zero => intro k; rfl
+  | succ n ih => intro k; simp only [allLoopAux]; rw [ih]
+
+section
+variable {K : Type} [Zero K] [Neg K] [Sub K] [Mul K] [LT K] [LE K] [DecidableLT K] [DecidableLE K]
+
+theorem allLoop_eq_eqLoop (s : Style) (e : K) : ∀ (a b : List K), a.length = b.length →
+    allLoop 0 a.length (fun i => eqS s (a.getD i 0) (b.getD i 0) e) = eqLoop s a b e
+  | [], [], _ => by simp [allLoop, allLoopAux, eqLoop]
+  | x :: xs, y :: ys, h => by
+    have h' : xs.length = ys.length := by simpa using h
+    have ih := allLoop_eq_eqLoop s e xs ys h'
+    simp only [allLoop, Nat.sub_zero] at ih
+    simp only [allLoop, Nat.sub_zero, List.length_cons, allLoopAux, eqLoop, List.getD_cons_zero]
+    rw [allLoopAux_shift]
+    simp only [List.getD_cons_succ]
+    rw [ih]
+  | [], _ :: _, h => by simp at h
+  | _ :: _, [], h => by simp at h
+
+/-- **the regenerated vector comparisons are the model's `eqVec` / `eqFV`** (every style, through the regenerated derivation
+    tables; `FieldVector`: both operands have the `n` of the type) -/
+theorem eqvec_tied (s : Style) (a b : List K) (e : K) :
+    GenEqVec.eq_std_vec eqS s a b e = eqVec s a b e ∧
+    (a.length = b.length → GenEqVec.eq_fvec eqS s a b e = eqFV s a b e) := by
+  constructor
+  · cases s <;> simp only [GenEqVec.eq_std_vec, GenEqVec.eq_t_std_vec, eqVec] <;>
+      (split
+       · rfl
+       · rename_i h
+         exact allLoop_eq_eqLoop _ e a b (by simpa using h))
+  · intro h
+    cases s <;> simp only [GenEqVec.eq_fvec, GenEqVec.eq_t_fvec, eqFV] <;> exact allLoop_eq_eqLoop _ e a b h
 end
 
 end DV.C17
